@@ -20,7 +20,13 @@ from .astutil import FUNC_TYPES, attr_chain, dotted
 from .effects import DELETED, EffectDomain, exc_info_of, is_generator
 from .generators import LazyGenerators
 
-CALLABLE_TAGS = ("func", "method", "boundmethod", "bound", "partial", "builtin", "listappend", "attrgetter", "itemgetter", "methodcaller", "classref", "ctorref", "userfn", "setmethod", "decoderfactory", "decodermethod", "strmethod", "dictmethod", "supermethod", "excclass", "trackedfn", "setattrmethod", "const-fn")
+CALLABLE_TAGS = ("func", "method", "boundmethod", "bound", "partial", "builtin", "listappend", "attrgetter", "itemgetter", "methodcaller", "classref", "ctorref", "userfn", "setmethod", "decoderfactory", "decodermethod", "strmethod", "dictmethod", "supermethod", "excclass", "trackedfn", "setattrmethod", "const-fn", "pytype")
+
+
+def is_mangled(attr):
+    """A name-mangled private attribute (`self.__x` written inside class C is `_C__x`; ttsa.loader mangles on load)."""
+    import re
+    return bool(re.match(r"_[A-Za-z0-9]\w*?__\w", attr)) and not attr.endswith("__") and not attr.startswith("__")
 
 
 def is_inst(v):
@@ -414,7 +420,7 @@ class ObjectDomain(LazyGenerators, EffectDomain):
             return [val(("listappend", heap_key(value)), st)]   # <a list some object keeps>.append taken as a value: bound to that very list
         if attr == "__dict__" and (is_inst(value) or value == ("self",)):
             prefix = f"inst.{value[1]}." if is_inst(value) else "self."
-            items = sorted((k[len(prefix):], v) for k, v in st.items if k.startswith(prefix) and "." not in k[len(prefix):] and not k[len(prefix):].startswith("__"))
+            items = sorted((k[len(prefix):], v) for k, v in st.items if k.startswith(prefix) and "." not in k[len(prefix):] and not (k[len(prefix):].startswith("__") and k[len(prefix):].endswith("__")))
             return [val(("kwdict", tuple((k, unbox_deep(v, st)) for k, v in items)), st)]
         if attr == "__class__" and is_inst(value):
             return [val(("classref", value[2]), st)]
@@ -473,7 +479,7 @@ class ObjectDomain(LazyGenerators, EffectDomain):
                 return self._run_getter(interp, getter, ("self",), st, fr, receiver=root)
             got = self._class_attr_expr(root, attr)
             if got is not None:
-                return self._eval_class_expr(interp, got[0], got[1], st, fr)
+                return self._bound_to_root(self._eval_class_expr(interp, got[0], got[1], st, fr))
         if self.track(key) or key in self.results:
             return [val(("method", attr), st)]
         if self.root_attr_absent(attr):
@@ -594,16 +600,21 @@ class ObjectDomain(LazyGenerators, EffectDomain):
             return self._run_getter(interp, getter, ("self",), st, fr, receiver=fr.receiver)
         got = self._class_attr_expr(fr.receiver, chain[1])
         if got is not None:
-            return self._eval_class_expr(interp, got[0], got[1], st, fr)
+            return self._bound_to_root(self._eval_class_expr(interp, got[0], got[1], st, fr))
         if self.root_attr_absent(chain[1]):
             return [exc(("exc", "AttributeError"), st)]   # an attribute nobody assigned
         return None
+
+    @staticmethod
+    def _bound_to_root(results):
+        """(a function kept in a class attribute is a method: looked up on the analysed object it is bound to it)"""
+        return [r if r.kind == "exc" or not (isinstance(r.value, tuple) and r.value[:1] == ("func",)) else val(("partial", r.value, (("self",),), ()), r.state) for r in results]
 
     def root_attr_absent(self, attr):
         """Is an attribute of the analysed object that neither the state, the environment nor the classes of the
         repository define known not to exist?  (Name-mangled ones under ``closed_private``; domains that know the
         external base classes of the object say more.)"""
-        return self.closed_private and attr.startswith("__") and not attr.endswith("__")
+        return self.closed_private and is_mangled(attr)
 
     # The analysed object was built by its real constructor: a name-mangled attribute (self.__x -- only the class's own
     # code can assign it) that is neither in the state nor defined by the class does not exist.
@@ -629,10 +640,12 @@ class ObjectDomain(LazyGenerators, EffectDomain):
                     return ("listappend", key)
         if all(isinstance(c, str) for c in chain) and ".".join(chain) in self.ctors and not st.has(fr.local(chain[0])):
             return ("ctorref", ".".join(chain))   # a constructor of the environment, handed around as a value
+        if len(chain) == 2 and all(isinstance(c, str) for c in chain) and ".".join(chain) in self.CALLED_BY_NAME and not st.has(fr.local(chain[0])):
+            return ("builtin", ".".join(chain))   # itertools.count & co. handed around as values
         if len(chain) == 1 and isinstance(chain[0], str) and not st.has(fr.local(chain[0])):
             if self.track(chain[0]) or chain[0] in self.results:
                 return ("trackedfn", chain[0])   # a function of the environment, handed around as a value
-            if chain[0] in ("bool", "repr", "str", "len", "object", "getattr", "setattr", "delattr", "hasattr"):
+            if chain[0] in ("bool", "repr", "str", "len", "object", "getattr", "setattr", "delattr", "hasattr") or chain[0] in self.CALLED_BY_NAME:
                 return ("builtin", chain[0])
             f = self._lookup_function(chain[0], fr) or self.classes.lookup_function(getattr(fr.func, "_module", None), chain[0])
             if f is not None:
@@ -646,6 +659,38 @@ class ObjectDomain(LazyGenerators, EffectDomain):
 
     def _is_method_value(self, d):
         return False
+
+    # Builtin types and library functions that are modelled where they are *called by name* (`list(x)`, `itertools.count(1)`):
+    # held in a variable, a table or a partial and called from there, they are called through a synthesized `name(args)`.
+    CALLED_BY_NAME = frozenset({"list", "dict", "set", "tuple", "frozenset", "int", "float", "bytes", "sorted", "reversed", "iter", "next", "enumerate", "zip", "map",
+                                "filter", "any", "all", "sum", "min", "max", "isinstance", "issubclass", "callable", "type", "id", "vars", "print",
+                                "itertools.count", "itertools.chain", "itertools.repeat", "itertools.filterfalse", "itertools.dropwhile", "itertools.takewhile",
+                                "itertools.islice", "itertools.accumulate", "itertools.starmap", "itertools.zip_longest", "functools.reduce", "functools.partial",
+                                "operator.attrgetter", "operator.itemgetter", "operator.methodcaller", "operator.is_", "operator.is_not", "operator.not_", "operator.eq",
+                                "operator.ne", "operator.contains", "operator.truth", "operator.getitem", "operator.add", "operator.or_", "operator.and_", "operator.call",
+                                "sys.exc_info", "sys.exception", "copy.copy", "copy.deepcopy"})
+    _by_name_cache = {}
+
+    def call_by_name(self, interp, name, pos, kw, st, fr):
+        """`name(*pos, **kw)` for a builtin held as a value: evaluated exactly as the call written out would be."""
+        from .loader import _annotate
+        key = (name, len(pos), tuple(k for k, _ in kw), id(getattr(fr.func, "_module", None)))
+        f = self._by_name_cache.get(key)
+        if f is None:
+            params = [f"_a{i}" for i in range(len(pos))]
+            kws = [k for k, _ in kw]
+            if name == "type" and len(pos) == 0:
+                return None
+            src = f"def _calling_a_builtin({', '.join(params + kws)}):\n    return {name}({', '.join(params + [f'{k}={k}' for k in kws])})\n"
+            tree = ast.parse(src)
+            _annotate(tree, getattr(fr.func, "_module", None))
+            f = tree.body[0]
+            f.name = f"<{name} called as a value>"
+            f._parent = None
+            self._by_name_cache[key] = f
+        argvals = {f"_a{i}": v for i, v in enumerate(pos)}
+        argvals.update(dict(kw))
+        return interp.inline(f, argvals, st, fr, is_method=False)
 
     BUILTIN_EXCEPTIONS = ("BaseException", "Exception", "KeyboardInterrupt", "SystemExit", "GeneratorExit", "ValueError", "TypeError", "KeyError", "IndexError",
                           "AttributeError", "RuntimeError", "StopIteration", "AssertionError", "OSError", "IOError", "NotImplementedError", "LookupError")
@@ -799,6 +844,14 @@ class ObjectDomain(LazyGenerators, EffectDomain):
             argvals[a.kwarg.arg] = ("kwdict", tuple(extra))
         elif extra:
             return None
+        if not any(isinstance(v, tuple) and v[:1] in (("*",), ("**",)) for v in list(pos) + [v for _, v in kw]):
+            # a parameter without default that got no argument: TypeError, like too many
+            n_def = len(a.defaults)
+            allp = [p.arg for p in a.posonlyargs + a.args]
+            required = set(allp[: len(allp) - n_def] if n_def else allp) - (set(allp[:1]) if skip_first else set())
+            required |= {p.arg for p, dflt in zip(a.kwonlyargs, a.kw_defaults) if dflt is None}
+            if any(p not in argvals for p in required):
+                return None
         return argvals
 
     def call_method(self, interp, inst, name, pos, kw, st, fr):
@@ -1019,7 +1072,18 @@ class ObjectDomain(LazyGenerators, EffectDomain):
         if tag == "builtin" and fn[1] in ("getattr", "setattr", "delattr", "hasattr") and not kw:
             got = self._attr_builtin(interp, fn[1], pos, st, fr)
             return got if got is not None else [val(TOP, st)]
+        if tag == "pytype":
+            if fn[1] == "NoneType" and not pos and not kw:
+                return [val(NONE, st)]
+            return self.apply(interp, ("builtin", fn[1]), pos, kw, st, fr)   # type(<a constant>) called: that builtin type
+        if tag == "builtin" and fn[1] in self.CALLED_BY_NAME:
+            got = self.call_by_name(interp, fn[1], pos, kw, st, fr)
+            return got if got is not None else [val(TOP, st)]
         if tag == "builtin" and len(pos) <= 1:
+            if fn[1] == "bool" and not pos and not kw:
+                return [val(FALSE, st)]
+            if fn[1] == "str" and not pos and not kw:
+                return [val(("const", ""), st)]
             if fn[1] == "bool" and pos:
                 return [val({"T": TRUE, "F": FALSE}.get(self.truth(pos[0]), ("bool",)), st)]
             if fn[1] in ("repr", "str") and pos:
@@ -1188,7 +1252,13 @@ class ObjectDomain(LazyGenerators, EffectDomain):
             return [val(TOP, st)]
         if tag == "method":
             return self.apply_method(interp, fn[1], pos, kw, st, fr)
+        if fn == TOP and self.strict_calls:
+            # what is called here decides what happens next, and the analysis does not know what it is: no verdict
+            raise Undecided(f"a value the analysis could not determine is called in {fr.name}")
         return [val(TOP, st)]
+
+    # Calling a value that evaluated to "unknown" is no verdict (exit 2), not a call that does nothing.
+    strict_calls = True
 
     def _param_names(self, fn, fr):
         """Positional parameter names of an abstract callable (without self), or None."""
@@ -1646,6 +1716,34 @@ class ObjectDomain(LazyGenerators, EffectDomain):
                         else:
                             out.append(val(TOP, s1))
                 return out
+        if d in ("functools.reduce", "reduce") and len(call.args) in (2, 3) and not call.keywords and not any(isinstance(a, ast.Starred) for a in call.args) and not st.has(fr.local("reduce")):
+            # reduce(f, seq[, initial]): f applied left to right, as written in functools
+            out = []
+            for r in interp._forced_list(interp.eval_list(list(call.args), st, fr, share=[True] * len(call.args)), fr):
+                if r.kind == "exc":
+                    out.append(r)
+                    continue
+                fnv, seq = r.value[0], unbox(r.value[1], r.state)
+                els = interp._exact_elements(seq)
+                if els is None:
+                    raise Undecided(f"functools.reduce over a sequence the analysis could not enumerate, in {fr.name}")
+                if len(call.args) == 3:
+                    cur = [val(r.value[2], r.state)]
+                elif els:
+                    cur, els = [val(els[0], r.state)], els[1:]
+                else:
+                    out.append(exc(("exc", "TypeError"), r.state))
+                    continue
+                for el in els:
+                    nxt = []
+                    for c in cur:
+                        if c.kind == "exc":
+                            out.append(c)
+                        else:
+                            nxt.extend(self.apply(interp, fnv, [c.value, el], [], c.state, fr))
+                    cur = nxt
+                out.extend(cur)
+            return out
         if d == "iter" and len(call.args) == 2 and not call.keywords:
             return [r if r.kind == "exc" else val(("calliter", r.value[0], r.value[1]), r.state) for r in interp.eval_list(list(call.args), st, fr)]
         if d in ("itertools.repeat", "repeat") and len(call.args) == 1 and not call.keywords:
@@ -1790,6 +1888,8 @@ class ObjectDomain(LazyGenerators, EffectDomain):
                     else:
                         out.extend(self.apply(interp, fnv, pos, kw, s2, fr))
                 return out
+            if fnv == TOP and self.strict_calls and isinstance(f_, ast.Name):
+                raise Undecided(f"`{f_.id}(...)` in {fr.name}: the analysis could not determine what the variable holds, so it cannot tell what the call does")
             # self.x(...) where the attribute x of the analysed object holds a callable value (a callback given to the constructor, ...)
             ch = attr_chain(f_)
             if fr.instance is None and ch and len(ch) == 2 and fr.selfname and ch[0] == fr.selfname and (st.has(fr.self_key + "." + ch[1]) or isinstance(self.attrs.get("self." + ch[1]), tuple)):
